@@ -146,8 +146,11 @@ class DateUnit(Unit):
             return c is not None and [ast.unparse(b) for b in c.bases] == [base] and all(isinstance(s, ast.Pass) for s in c.body) and not c.decorator_list and not c.keywords
         self.errors_ok = all(plain_exc(n, b) for n, b in HIERARCHY.items())
 
-    def has_def(self, rec, name):
-        return False
+    # module-level helpers without a declared signature: inlined at their call sites
+    def helper_def(self, rec, name):
+        if rec is None and name in self.fdefs and name not in self.funcs and name not in ('_read_timezones', 'parse_plural_forms', 'parse_plural_expression'):
+            return (self.fdefs[name], False)
+        return None
 
 def generate(repo):
     _mangled.clear()
